@@ -7,7 +7,10 @@ import c02
 
 CONFIGS = ['prod', 'sim']
 EXPLANATION = (
-    'The property quantifies over fault schedules and is NOT decided as a whole. Decided, for both transports (hyper and the turmoil '
+    'The property quantifies over fault schedules and is NOT decided as a whole. SEM (primary for the timeout clause; abstract interpretation of the MIR, no code runs): one '
+    'exchange of the client interpreted with and without a configured timeout against eight outcomes of the network: the request is sent once, the caller gets what THIS response '
+    'carries or a locally built status of the right kind, every network effect lies inside ONE tokio timeout of the configured duration, an elapsed bound becomes the timeout status. '
+    'Decided, for both transports (hyper and the turmoil '
     'simulation feature): X1 no client-side resend — the transport call and each layer above it (send_parts, send_inner) is issued once '
     'per request: exactly one site, not inside any CFG cycle, so a failed attempt is never re-issued; X2 when a timeout is configured, '
     'every await of the exchange (request, reply body, status body — and any other await send_inner performs on that path, e.g. connection '
